@@ -118,6 +118,9 @@ def run(ctx):
     failures = vlib.lean_failures(prop, lean)
     ctx.log("lean:", "ok" if lean["ok"] else "FAILED")
     extra = []
+    _ob, _sf = vlib.skeleton_tie(prop, "wallet")
+    extra.append(_ob)
+    failures += _sf
     corr = {"evaluations": 0, "distinct_nontrivial": 0, "rule": "", "samples": [], "traces_validated_against_impl": 0,
             "hist": {}, "observations": {}}
     binary = _build(ctx, failures)
